@@ -71,7 +71,10 @@ def run_part(ctx):
             ctx.fail("bin-trunc-crash", "%s path on %s cut at %d: %s" % (p, d.hex(), k, o), [cases[j]], [o]); continue
         if not o.startswith("(map"):
             continue
-        ref = sexp_items(full.get((d, "slice"), ""))
+        # a_c19: the complete document through the SAME path (the tape path differs from the other two on an rgb block inside an
+        # array and on a u16-looking id in value position: C04's known findings O-tape-rgb-in-array / N-tape-u16-id-value, which
+        # made this oracle fire under VERIF_SEED=4, 5, 7 with the slice result as the only reference)
+        ref = sexp_items(full.get((d, p), ""))
         if ref is None:
             continue        # the complete document itself is not accepted into map(any): nothing to compare with
         fitems = ref
